@@ -53,7 +53,10 @@ def _generic_rules(ctx, pid):
   ctx.rule('%s.S2' % pid, 'no closure created inside a loop of the anchored modules reads a variable of that loop late (it would act on a later request / frame / member)')
   _util.late_binding(ctx, '%s.S2' % pid, _anchor_files(pid))
   ctx.rule('%s.S3' % pid, 'locks, events and queues constructed in the anchored modules are gevent primitives (thread primitives neither exclude nor yield between greenlets)')
-  _util.greenlet_primitives(ctx, '%s.S3' % pid, _anchor_files(pid))
+  ctx.rule('%s.S4' % pid, 'a constructor of the anchored modules that starts a greenlet on a method of the new object stores every attribute that method reads before the spawn')
+  _util.init_before_spawn(ctx, '%s.S4' % pid, _anchor_files(pid))
+  # C01 (every call completes by its deadline) needs the hub itself never to block: there the rule covers every module of the package
+  _util.greenlet_primitives(ctx, '%s.S3' % pid, sorted(ctx.prog.modules) if pid == 'C01' else _anchor_files(pid))
 
 
 def run_property(pid, tier, root=None, prog=None):
